@@ -113,8 +113,9 @@ def mono_mul(a, b):
 
 
 class Norm:
-    def __init__(self, core, terms=None, rename=None):
+    def __init__(self, core, terms=None, rename=None, subst=None):
         self.rename = rename
+        self.subst = subst or {}      # variable name -> int constant | callable(norm) -> Frac (substitution of a definition)
         self.core = core
         self.nodes = core['nodes']
         self.varinfo = core['vars']
@@ -146,6 +147,17 @@ class Norm:
                 stack.pop()
                 continue
             if k == 'v':
+                name = self.varinfo[op[1]]['name']
+                if name in self.subst:
+                    sv = self.subst[name]
+                    if callable(sv):
+                        fr = sv(self)
+                        memo[cur] = (fr.num, dict(fr.den), fr.mono)
+                    else:
+                        t = T.const(int(sv))
+                        memo[cur] = (t, {}, {} if int(sv) == 1 else None)
+                    stack.pop()
+                    continue
                 t = self.var_term(op[1])
                 memo[cur] = (t, {}, {t: 1})
                 stack.pop()
